@@ -6,8 +6,6 @@ SRC = threadgen.SRC
 HARNESSES = {
     "threads": dict(sources=SRC, flavour="asan", mode="C04", timeout=40),
     "default": dict(name="threads", sources=SRC, flavour="asan", mode="C04", timeout=40),
-    "threads_tsan": dict(name="threads_rt", sources=["scen/threads_rt.cpp"], flavour="tsan", mode="C04rt", timeout=60, jobs=4,
-                         env={"TSAN_OPTIONS": "halt_on_error=1:exitcode=66"}),
 }
 RULE = ("one driver thread (Run, or k x Step(T)) and 1-4 user threads, each a random program of management calls (attach/detach an "
         "async UDP socket, SendTo, ToDo create/Cancel/Shift, Stop, waiting for futures/handlers/tasks), all real library threads run "
@@ -57,3 +55,30 @@ LEVEL_TEXT = ("Machine-checked: an inductive invariant (ownership of stepMtx/pau
 LEVEL_NOTE = ("Trusted: Lean kernel; axioms propext/Quot.sound/Classical.choice; the LTS as a description of the code's sync skeleton "
               "(validated on scheduled executions only); the scheduler. 'Without data races or memory errors' below lock granularity is NOT "
               "proved: the ASan build of the scheduled runs and a real-thread run look for them (testing, labelled as such).")
+
+
+def extra_checks(runner, rng, tier, stats, seed):
+    """real threads under ThreadSanitizer and AddressSanitizer (no cooperative scheduler): the sanity net for what the
+    lock-level model abstracts away.  Testing, labelled as such."""
+    import vlib
+    out = []
+    n = 0
+    for flavour, env in (("tsan", {"TSAN_OPTIONS": "halt_on_error=1:exitcode=66"}), ("asan", None)):
+        exe = vlib.build_harness("threads_rt", flavour, ["scen/threads_rt.cpp"])
+        k = 6 if tier == "quick" else 60
+        cases = [("rt%d" % i, ["rt %d %d %d" % (rng.randrange(10**6), rng.choice([2, 3, 4]), 200 if tier == "quick" else 600)]) for i in range(k)]
+        res = vlib.run_cases(exe, cases, jobs=4, env=env, timeout_per_case=120)
+        for cid, ops in cases:
+            n += 1
+            tr = res.get(cid, [])
+            if not any(l.startswith("-> rt done") for l in tr):
+                path = vlib.write_replay(ID, "C04_%s_realthreads_%s.replay" % (tier, flavour),
+                                         "property: C04\nkind: sanitizer report with real threads (%s)\nops: %s\nobserved: %s\n" % (flavour, ops, tr))
+                out.append(("spec", path, True, "real-thread run under %s: %s" % (flavour, " ".join(tr)[-300:])))
+                break
+    stats["real_thread_runs"] = n
+    return out
+
+
+def extra_coverage(stats):
+    return {"real_thread_sanitizer_runs": stats.get("real_thread_runs", 0)}
